@@ -8,6 +8,7 @@ prints abbreviation + limit + expected listing, replayed through expand(abbr, {'
 import zlib
 
 import common
+import grammar
 import project_html as ph
 
 
@@ -112,9 +113,17 @@ def run(out):
         ks = sorted(vecs, key=lambda a: zlib.crc32(repr(a).encode()))
         for k in ks[:2]:
             out.sample({'abbr': k[0], 'maxRepeat': k[1], 'expected': [[e['d'], e['n'], e['pl'], e['v']] for e in vecs[k]['out']][:12]})
+    # ---- grammar-level differential: tokenizer + parser + convert() of the specification against abbreviation.parse()
+    gq = dict(NameFr={"x", "li$", "h$$@3"}, ModFr={".c$@-", "{t$@^}", "[n=$$@-5]", "#i$@^^"}, RepFr={"*1", "*2", "*3", "*"}, OpFr={">", "+", "^"},
+              MaxGroups=1, MaxMods=1)
+    for limit in ((None, 3, 1) if quick else (None, 1, 2, 3, 5)):
+        grammar.differential(out, 'grammar-numbering-maxRepeat-%s' % limit, dict(gq, MaxFrag=5 if quick else 6), ('d', 'name', 'text', 'attrs'),
+                             'numbering (node tree of abbreviation.parse)', limit=limit)
 
 
 def replay(case):
+    if 'compared' in case.get('case', {}):
+        return grammar.replay(case)
     import emmet
     c = case['case']
     cfg = {'options': {'output.format': c.get('format', True)}}
